@@ -1361,6 +1361,9 @@ def run_c11(R, r, rep, stats, lens, mode, vcache, thorough, divergences, oracle_
     stats["phase_s"]["repeated"] = round(_t.time() - t0, 2)
     if not rep_reqs:
         gate.append("no repeated requests")
+    lp = stats.get("long_paths", {})
+    if lp and (lp.get("honest_valid", 0) < len(lp.get("hops", [])) or lp.get("forged_not_valid", 0) < len(lp.get("hops", []))):
+        gate.append("long paths: not every honest path of %s hops was VALID for rtrlib and the oracle, or a forged one was VALID for the oracle (%s)" % (lp.get("hops"), lp))
     stats["coverage_gate_missing"] = gate
     for o in vcache.values():
         hist(stats["verify_outcomes"], o or "?")
@@ -1573,6 +1576,9 @@ def run_c12(R, r, rep, stats, lens, mode, vcache, thorough, divergences, oracle_
     t0 = _t.time()
     threads_c12(R, r, rep, stats, thorough, oracle_fails, reqs, gate)
     stats["phase_s"]["threads"] = round(_t.time() - t0, 2)
+    pk = stats.get("private_key_encodings", {})
+    if not pk.get("requests") or sorted(pk.get("lengths", [])) == [121]:
+        gate.append("private key encodings: no signing request with a key in another valid encoding ran (%s)" % pk)
     stats["coverage_gate_missing"] = gate
     return 0
 
